@@ -143,6 +143,15 @@ fn gen_sep(rng: &mut Rng, comments: bool) -> Vec<u8> {
                 s.push(*rng.pick(&WS));
             }
             s.push(b'#');
+            if rng.chance(1, 60) {
+                // tens of thousands of comment lines in a row: whatever skips them had
+                // better not recurse
+                let n = rng.usize(30_000, 60_000);
+                for _ in 0..n {
+                    s.extend_from_slice(b"#\n");
+                }
+                continue;
+            }
             if rng.chance(1, 12) {
                 // a comment longer than any line or chunk buffer a decoder might use
                 let n = *rng.pick(&[200usize, 300, 1100, 4200, 9000]);
